@@ -324,12 +324,25 @@ class Check:
         if not goals:
             return True
         path = os.path.join(BUILD, f'IG_{self.pid}_{name}.v')
-        lines = ['From Coq Require Import Reals.', 'From Interval Require Import Tactic.', 'Open Scope R_scope.', '']
+        gens = sorted({g['gen'] for g in goals if isinstance(g, dict)})
+        lines = ['From Coq Require Import Reals List Bool.', 'From Interval Require Import Tactic.']
+        if gens:
+            lines += ['From ND.lib Require Import Expr Tac.', 'From ND.gen Require Import ' + ' '.join(gens) + '.', 'Import ListNotations.']
+        lines += ['Open Scope R_scope.', '']
         index = {}
-        for i, (label, expr, val, tol) in enumerate(goals):
+        norm = []
+        for i, g in enumerate(goals):
             index[len(lines) + 1] = i
-            lines.append(f'Goal Rabs ({expr} - ({float_lit(val)})) <= {tol}.')
-            lines.append('Proof. interval with (i_prec 90). Qed.')
+            if isinstance(g, dict):
+                norm.append((g['label'], g['goal'], g['value'], ''))
+                lines.append(f'Goal {g["goal"]}.')
+                lines.append('Proof. eval_corr_prepare. interval with (i_prec 90). Qed.')
+            else:
+                (label, expr, val, tol) = g
+                norm.append(g)
+                lines.append(f'Goal Rabs ({expr} - ({float_lit(val)})) <= {tol}.')
+                lines.append('Proof. interval with (i_prec 90). Qed.')
+        goals = norm
         with open(path, 'w') as f:
             f.write('\n'.join(lines) + '\n')
         self.obligations += len(goals)
